@@ -473,6 +473,30 @@ def main():
         common.write_json(replay_path, rep)
         violations = refuted + [v['what'] for v in rep['side_violations']]
 
+    # A Verus unit that could not be decided (construct outside the subset, lost anchor, rlimit) says nothing.  The native
+    # oracle evaluates the same contract clauses on the real code; a concrete failing input it finds is a demonstrated
+    # violation of a baseline obligation (with replay), so it is reported - anything else stays undecided (exit 2).
+    if not violations and ocfgs and any(r['undecided'] for r in vres):
+        if wr is None:
+            wr = prepare_workrepo(work, kcfgs, ocfgs, P.get('side'))
+        for o in ocfgs:
+            if not any(r['unit'] == o['unit'] and r['undecided'] for r in vres):
+                continue
+            log('[%s] verus unit %s undecided; native oracle searches the real code for a contract violation ...' % (pid, o['unit']))
+            orc = run_oracle(o, wr, seed, [], 20000 if tier == 'quick' else 200000)
+            hits = [f for f in orc['fails'] if f['obligation'] in baseline and mine(f['obligation'])]
+            if hits:
+                os.makedirs(os.path.join(HERE, 'replays'), exist_ok=True)
+                replay_path = os.path.join(HERE, 'replays', '%s-%s.json' % (pid, time.strftime('%Y%m%d-%H%M%S')))
+                common.write_json(replay_path, {'property_id': pid, 'tier': tier, 'seed': seed,
+                                                'failed_obligations': {f['obligation']: ['native oracle: ' + f['input']] for f in hits},
+                                                'verifier_output': {'verus/' + o['unit']: 'UNDECIDED: %s' % [r['undecided'] for r in vres if r['unit'] == o['unit']]},
+                                                'counterexamples': [], 'oracle': orc, 'side_violations': []})
+                for f in hits:
+                    failed.setdefault(f['obligation'], []).append('native oracle (verifier undecided): ' + f['input'][:300])
+                refuted = sorted({f['obligation'] for f in hits})
+                violations = list(refuted)
+
     # thorough: native oracle sweep on the unchanged code (bounded evidence, not counted as proof)
     sweep = None
     if tier == 'thorough' and ocfgs and not violations:
